@@ -326,6 +326,12 @@ def main(argv: Optional[list] = None) -> int:
         fam, case, out = _replay_file(check, Path(args.replay))
         if out.violation is not None:
             print(f"replay: {out.kind}: {out.violation}")
+            findings, _ = load_known(prop)
+            for f in findings:
+                rec = check.recognisers.get(f["key"])
+                if rec is not None and rec(fam.name, case, out):
+                    print(f"KNOWN-FINDING: property={prop} {f['text']}")
+                    return 0
             print(f"VIOLATION property={prop} replay={args.replay}")
             return 1
         print(f"replay holds ({fam.name}); classes={list(out.classes)}")
